@@ -113,3 +113,15 @@ def link_falsifier(rep):
                     ob.witness = dict(ob.witness or {}, concrete_input=inp, found_by=t.id)
                     ob.replayed = True
                     break
+
+
+def run_static(rep, prop, rules, only_files=None):
+    """frame / purity / clock judgements of pyvc/static.py as obligations of tier 'static' (all paths, all sizes)"""
+    from pyvc import static
+    from pyvc.report import REPO
+    obs, unknown = static.obligations(prop, REPO, rules)
+    for o in obs:
+        if only_files is not None and not any(f in o.function for f in only_files):
+            continue
+        rep.add(o)
+    rep.trust("static discipline checker: callees outside the analysed modules are assumed not to write their arguments (" + ", ".join(unknown[:25]) + ", ...)")
